@@ -54,10 +54,10 @@ MANIFEST = dict(
     note="Trusted: Lean kernel (axioms propext, Quot.sound); the lexical models: not modelled are trigraphs, raw strings, splices "
          "outside // comments and literals, #if 0, C++14 digit separators, Fortran continuation inside character context, fixed form, ';'; "
          "where not exact the tokens are coarser than the compilers' (identifier glued to an adjacent literal, adjacent literals, "
-         "'..', Fortran names joined by dots) so a blank cannot move into or out of a compiler token unnoticed - this coarseness "
+         "'..', Fortran names joined by dots; header names after #include and NAME( after #define are single tokens) so a blank cannot move into or out of a compiler token unnoticed - this coarseness "
          "claim and the comment removal are validated, not proved: Python mirror compared with the Lean driver on every run; in "
          "the thorough tier gcc -fpreprocessed -dD -E -P (per directive / code stretch, and token equality after re-lexing gcc's "
-         "output), same assembly from the text rebuilt with one blank between any two model tokens where the wrapper compiles "
+         "output), same -O1 assembly from the text rebuilt with one blank between any two model tokens (this found and removed two flaws of the first tokenizer: <header> names, function-like macro definitions) where the wrapper compiles "
          "here, same gfortran parse tree for the rebuilt Fortran text. Trusted too: the AST classification of "
          "tools/extract_guards.py with its allow-list (each entry justified there; discharged only by the differential runs) and "
          "the assumption that dynamic text spliced into comment templates holds no newline. Version stamping: the stamp is in the "
